@@ -2,7 +2,7 @@
    graph  = ((node...) (edge...)), node = (id label type ((key w)...) (wild...)),
             edge = (from to type tupleset (cond...) ((key w)...) (wild...))
    result = (0 graph) | (1 class msg) ; class 0 invalid model, 1 model cycle, 2 tuple cycle, 3 constraint tuple cycle, 5 out of fuel *)
-From Verif Require Import Base.Str Base.Sx Base.Outcome Model.Ast Model.WGraph Model.WWeights Model.PGraph Model.WireModel Spec.GraphWeights.
+From Verif Require Import Base.Str Base.Sx Base.Outcome Model.Ast Model.WGraph Model.WWeights Model.PGraph Model.WireModel Spec.GraphWeights Spec.GraphShape.
 
 Definition sx_ntype (t : ntype) : sx := SA (match t with NType => 0 | NTypeRel => 1 | NOperator => 2 | NWildcard => 3 end).
 Definition sx_etype (t : etype) : sx := SA (match t with EDirect => 0 | ERewrite => 1 | ETTU => 2 | EComputed => 3 end).
@@ -59,6 +59,7 @@ Definition dispatch_graph (op : N) (args : list sx) : option sx :=
                                          sx_bool (forallb (spec_accepts g) (default_order g))]
                            | _ => SL [SA 2; SL []]
                            end) (un_model m)
+  | 503, [m] => option_map (fun m => SL [sx_bool (shape_domain m)]) (un_model m)
   | 500, [m] => option_map (fun m => sx_gresult (wbuild m)) (un_model m)
   | 501, [o; m] =>
       match un_opt (un_listof un_str) o, un_model m with
